@@ -313,6 +313,7 @@ def run(rep, repo, tier):
         for pc, stab in ((True, True),):
             r = lpfacts.get_run(repo, pc, stab, crit)
             check_names(rep, r, '[all nine criteria, pc, stab]')
+            lpfacts.check_domains_fixed(rep, r, 'C02.R2', '[all nine criteria, pc, stab]')
     # R2, R6, R7 per criterion and arity
     for name, sp in spec.CRITERIA.items():
         for arity in range(sp['nextras'] + 1):
